@@ -51,6 +51,39 @@ def scenarios(ctx):
         for pre in prefixes if not ctx.quick else [prefixes[0]]:
             n += 1
             out.append(one("c14-%03d" % n, rnd, pre + [(size, 9, "ok"), (4, 12, "ok")]))
+    if not ctx.quick:
+        # random walks over sizes drawn around the limit (both directions, by 1 .. 64 KiB) and far from it, error
+        # responses of every size class (the limit applies to them too), oversize events and oversize responses mixed
+        near = lambda: L + rnd.choice([-1, 1]) * rnd.choice([0, 1, 2, 3, 7, 100, 101, 4095, 4096, 65536])
+        for i in range(120):
+            steps = []
+            for _ in range(rnd.randrange(2, 6)):
+                req = rnd.choice([rnd.randrange(0, 4096), near(), rnd.randrange(0, 4096)])
+                resp = rnd.choice([rnd.randrange(0, 70000), near(), near(), L + rnd.randrange(1, 2 * 1024 * 1024)])
+                steps.append((req, resp, "ok"))
+            n += 1
+            out.append(one("c14-%03d" % n, rnd, steps + [(3, 11, "ok")]))
+    return out
+
+
+def fe_scenarios(ctx):
+    """the same through the HTTP front end: oversize answers must come back as the error document with status 200
+    and the next request must be served by the same runtime"""
+    rnd = random.Random(ctx.seed * 19 + 15)
+    out = []
+    sizes = [L, L + 1] if ctx.quick else [0, L - 1, L, L + 1, L + 2, L + 4096, 7 * 1024 * 1024]
+    for i, size in enumerate(sizes):
+        s = Scn("c14-fe%02d" % i, ext=[], timeout_ms=3000, frontEnd=True, opWaitMs=10000)
+        s.meta(family="sizes-frontend", size=size)
+        it = s.invoke(size=7, seed=rnd.randrange(1, 10 ** 6))
+        s.await_exec(kind="rt")
+        t = s.call("rt", "next", async_=True)
+        s.wait(t)
+        s.call("rt", "response", id="current", size=size, seed=rnd.randrange(1, 10 ** 6))
+        tags = {"rt": s.poll("rt")}
+        s.wait(it)
+        s.round(tags, {})
+        out.append(s.done())
     return out
 
 
@@ -58,6 +91,7 @@ def run(ctx):
     ctx.level = "model_checking"
     ctx.assumptions += sc.ASSUME
     sc.run_families(ctx, scenarios(ctx), "sizes")
+    sc.run_families(ctx, fe_scenarios(ctx), "sizes-frontend")
     ctx.coverage["exhaustive"] = False
 
 
